@@ -23,7 +23,7 @@ struct in_pq {
 #define PQ_PROLOGUE(FN) \
     V_INPUT(FN, struct in_pq, in); \
     V_ENV_MTU(in.cfg); \
-    V_ASSUME(g_cfg.mtu == V_MTU_FIXED && !g_cfg.mtu_fail); \
+    V_ASSUME(g_cfg.mtu == V_MTU_FIXED && !g_cfg.mtu_fail); g_cfg.mtu = V_MTU_FIXED; g_cfg.mtu_fail = 0; \
     g_ctx = &v_ctx_obj; \
     g_j = in.gj; \
     lltd_iface_state st; V_ZERO(st); \
